@@ -369,11 +369,21 @@ pub struct Ctx<C: Cv> {
     pub ncb_run: RefCell<usize>,
     pub record: bool,
     pub cap: std::cell::Cell<usize>,
+    /// the variable each commit call returned, in call order: ["V", k] in a program means the k-th of them (as a gadget would use it)
+    pub vhandles: RefCell<Vec<Variable<Fr<C>>>>,
     /// verify-only runs (fixtures): the commitments handed to the verifier, in order, instead of recomputing them
     pub given_commits: RefCell<VecDeque<C::G>>,
 }
 
 impl<C: Cv> Ctx<C> {
+    pub fn var(&self, k: &str, i: usize) -> Variable<Fr<C>> {
+        if k == "V" {
+            if let Some(v) = self.vhandles.borrow().get(i) {
+                return *v;
+            }
+        }
+        var_of(k, i)
+    }
     fn val(&self, v: &Val) -> Fr<C> {
         let f: Fr<C> = v.f();
         match (&self.wide, v) {
@@ -460,7 +470,7 @@ pub fn static_label(s: &str) -> &'static [u8] {
 }
 
 fn terms<C: Cv>(cx: &Ctx<C>, ts: &[Term]) -> Vec<(Variable<Fr<C>>, Fr<C>)> {
-    ts.iter().map(|(k, i, c)| (var_of(k, *i), cx.coef(c))).collect()
+    ts.iter().map(|(k, i, c)| (cx.var(k, *i), cx.coef(c))).collect()
 }
 fn terms_json<C: Cv>(ts: &[(Variable<Fr<C>>, Fr<C>)]) -> Value {
     Value::Array(
@@ -500,34 +510,34 @@ fn eval_terms<C: Cv, CS>(cs: &CS, cx: &Ctx<C>, hk: &Hooks<C, CS>, ts: &[(Variabl
 pub fn build_expr<C: Cv>(cx: &Ctx<C>, e: &Expr) -> LinearCombination<Fr<C>> {
     type LC<C> = LinearCombination<Fr<C>>;
     match e {
-        Expr::Var { k, i } => LC::<C>::from(var_of::<Fr<C>>(k, *i)),
-        Expr::FromVar { k, i } => LC::<C>::from(var_of::<Fr<C>>(k, *i)),
+        Expr::Var { k, i } => LC::<C>::from(cx.var(k, *i)),
+        Expr::FromVar { k, i } => LC::<C>::from(cx.var(k, *i)),
         Expr::One => LC::<C>::from(Variable::One()),
         Expr::Const { c } => LC::<C>::from(cx.val(c)),
         Expr::Zero => LC::<C>::default(),
         Expr::Add { a, b } => match (&**a, &**b) {
             // exercise the Variable + X impls when the left operand is a bare variable
-            (Expr::Var { k, i }, _) => var_of::<Fr<C>>(k, *i) + build_expr(cx, b),
+            (Expr::Var { k, i }, _) => cx.var(k, *i) + build_expr(cx, b),
             _ => build_expr(cx, a) + build_expr(cx, b),
         },
         Expr::Sub { a, b } => match (&**a, &**b) {
-            (Expr::Var { k, i }, _) => var_of::<Fr<C>>(k, *i) - build_expr(cx, b),
+            (Expr::Var { k, i }, _) => cx.var(k, *i) - build_expr(cx, b),
             _ => build_expr(cx, a) - build_expr(cx, b),
         },
         Expr::Neg { a } => match &**a {
-            Expr::Var { k, i } => -var_of::<Fr<C>>(k, *i),
+            Expr::Var { k, i } => -cx.var(k, *i),
             _ => -build_expr(cx, a),
         },
         Expr::Mul { a, c } => match &**a {
-            Expr::Var { k, i } => var_of::<Fr<C>>(k, *i) * cx.val(c),
+            Expr::Var { k, i } => cx.var(k, *i) * cx.val(c),
             _ => build_expr(cx, a) * cx.val(c),
         },
-        Expr::Collect { terms } => terms.iter().map(|(k, i, c)| (var_of::<Fr<C>>(k, *i), cx.val(c))).collect(),
+        Expr::Collect { terms } => terms.iter().map(|(k, i, c)| (cx.var(k, *i), cx.val(c))).collect(),
     }
 }
 /// the meaning of an expression under the prover's assignment (harness evaluator, independent of the operators)
 fn denote<C: Cv, CS>(cs: &CS, cx: &Ctx<C>, hk: &Hooks<C, CS>, e: &Expr) -> Fr<C> {
-    let var = |k: &str, i: usize| eval_terms(cs, cx, hk, &[(var_of::<Fr<C>>(k, i), Fr::<C>::one())]);
+    let var = |k: &str, i: usize| eval_terms(cs, cx, hk, &[(cx.var(k, i), Fr::<C>::one())]);
     match e {
         Expr::Var { k, i } | Expr::FromVar { k, i } => var(k, *i),
         Expr::One => Fr::<C>::one(),
@@ -577,6 +587,7 @@ fn exec_op_inner<C: Cv, CS: ConstraintSystem<Fr<C>>>(
                 cx.vals.borrow_mut().push(v);
             }
             let (pt, var) = commit(cs, v, vb);
+            cx.vhandles.borrow_mut().push(var);
             if is_p {
                 cx.commits.borrow_mut().push(pt);
                 cx.emit(json!({"ev":"call","ph":ph,"op":"commit","v":enc_s::<C>(&v),"vb":enc_s::<C>(&vb),
@@ -950,6 +961,7 @@ fn new_ctx<C: Cv>(
         ncb_run: RefCell::new(0),
         record,
         cap: std::cell::Cell::new(side.cap),
+        vhandles: RefCell::new(vec![]),
         given_commits: RefCell::new(VecDeque::new()),
     })
 }
